@@ -445,10 +445,10 @@ Qed.
 
 (* the first item ends up as the first top-level leaf, parsed with the reference the search from the
    message reference found directly, or with none *)
-Lemma first_step_leaf' t (X A : Type) raw (mkseg : X -> option sref -> result A) nm admission root x0 s1 :
+Lemma first_step_leaf' t (X A : Type) raw (mkseg : X -> option sref -> result A) nm acceptance root x0 s1 :
   match search t search_fuel (raw x0) root with
   | Ok None => True | Ok (Some (_, [])) => True | _ => False end ->
-  step t X A raw mkseg nm admission root (init_state A root) x0 = Ok s1 ->
+  step t X A raw mkseg nm acceptance root (init_state A root) x0 = Ok s1 ->
   exists a r, g_forest s1 = [GS a r] /\ mkseg x0 r = Ok a /\
     forall sr, r = Some sr -> search t search_fuel (raw x0) root = Ok (Some (sr, [])).
 Proof.
@@ -544,11 +544,11 @@ Proof.
   apply bind_ok in H. destruct H as (f & Hf & H). injection H as <-.
   apply bind_ok in Hf. destruct Hf as (s & Hrun & Hf). injection Hf as <-.
   rewrite Ep in Hrun. cbn [Groups.run] in Hrun. apply bind_ok in Hrun. destruct Hrun as (s1 & Hs1 & Hrun).
-  destruct (first_step_leaf' t str seg (take 3) (seg_of_piece t lvl e leaf) s_name (group_admission t lvl) root
+  destruct (first_step_leaf' t str seg (take 3) (seg_of_piece t lvl e leaf) s_name (group_acceptance t lvl) root
               (strip (first_line text)) s1) as (a & r & Ef & Em & Hr); [|exact Hs1|].
   { rewrite Htake. unfold msh_top_ok in Htop. destruct (search t search_fuel (unbs "MSH") root) as [[[sr [|? ?]]|]|]; (exact I || discriminate). }
   assert (Hh : Proofs.RoundTripMsg.hd_leaf seg a r (g_forest s1)) by (exists []; exact Ef).
-  pose proof (Proofs.RoundTripMsg.run_hd t str seg (take 3) (seg_of_piece t lvl e leaf) s_name (group_admission t lvl)
+  pose proof (Proofs.RoundTripMsg.run_hd t str seg (take 3) (seg_of_piece t lvl e leaf) s_name (group_acceptance t lvl)
                 root a r ps s1 s Hh Hrun) as [rest Erest].
   destruct (seg_of_piece_msh r a) as (N & V1 & V2); [|exact Em|].
   { intros sr Esr. specialize (Hr sr Esr). rewrite Htake in Hr.
